@@ -32,6 +32,7 @@ type gstate struct {
 	killed  bool
 	depth   int
 	started bool
+	hid     int // harness thread id: 0 = main, 1.. = verifrt.Go threads, -1 = goroutine started by code under test
 }
 
 type mutexState struct {
@@ -51,6 +52,7 @@ type scheduler struct {
 	mutexOrder  []*value
 	once        map[*value]bool
 	sideVals    map[*value]value // atomic.Value / atomic.Pointer contents
+	nextHid     int
 	done        chan pathEnd
 	finished    bool
 	schedule    []int
@@ -60,10 +62,23 @@ func newScheduler(i *interpreter) *scheduler {
 	return &scheduler{i: i, mutexes: map[*value]*mutexState{}, once: map[*value]bool{}, sideVals: map[*value]value{}}
 }
 
-func (s *scheduler) newG(name string) *gstate {
-	g := &gstate{id: len(s.gs), name: name, wake: make(chan struct{}, 1)}
+func (s *scheduler) newG(name string, harness bool) *gstate {
+	g := &gstate{id: len(s.gs), name: name, wake: make(chan struct{}, 1), hid: -1}
+	if harness {
+		g.hid = s.nextHid
+		s.nextHid++
+	}
 	s.gs = append(s.gs, g)
 	return g
+}
+
+// record notes a scheduling point in the replay events: who was running, at
+// what kind of point, and who runs next (harness thread id + 1; 0 = a
+// goroutine started by the code under test).
+func (s *scheduler) record(why string, cur, next *gstate) {
+	ps := s.i.ps
+	ps.events = append(ps.events, ReplayEvent{Kind: "sched", Name: why, From: cur.hid, Value: uint64(next.hid + 1)})
+	s.schedule = append(s.schedule, next.id)
 }
 
 // wait parks the calling goroutine until it receives the baton.
@@ -103,19 +118,25 @@ func (s *scheduler) schedPoint(fr *frame, why string) {
 	if len(s.gs) == 1 {
 		return
 	}
-	if s.preemptions >= s.i.ex.cfg.Preemptions {
-		return
+	switch why {
+	case "lock", "rlock", "send", "recv", "select":
+		// switching before a synchronisation operation that does not block
+		// cannot be forced in a native replay; off unless asked for
+		if !s.i.ex.cfg.PreemptAtSync {
+			return
+		}
 	}
-	r := s.runnable(true)
-	if len(r) <= 1 {
-		return
+	next := cur
+	if s.preemptions < s.i.ex.cfg.Preemptions {
+		if r := s.runnable(true); len(r) > 1 {
+			next = r[s.i.choose(len(r), DSched, why)]
+		}
 	}
-	k := s.i.choose(len(r), DSched, why)
-	if k == 0 {
-		return
+	s.record(why, cur, next)
+	if next != cur {
+		s.preemptions++
+		s.switchTo(cur, next)
 	}
-	s.preemptions++
-	s.switchTo(cur, r[k])
 }
 
 func (s *scheduler) switchTo(cur, next *gstate) {
@@ -127,7 +148,6 @@ func (s *scheduler) switchTo(cur, next *gstate) {
 		next.ready = nil
 	}
 	s.current = next
-	s.schedule = append(s.schedule, next.id)
 	next.wake <- struct{}{}
 	s.wait(cur)
 }
@@ -160,8 +180,8 @@ func (s *scheduler) dispatch(fr *frame, cur *gstate) {
 		next.status = gRunnable
 		next.ready = nil
 	}
+	s.record("dispatch", cur, next)
 	s.current = next
-	s.schedule = append(s.schedule, next.id)
 	next.wake <- struct{}{}
 	if cur.status == gDone {
 		return
@@ -196,7 +216,7 @@ func (i *interpreter) failNow(kind, label, stack string) {
 	panic(pathEnd{kind: endFailure})
 }
 
-func (i *interpreter) spawn(fr *frame, pos token.Pos, fn value, args []value) {
+func (i *interpreter) spawn(fr *frame, pos token.Pos, fn value, args []value, harness bool) {
 	s := i.ps.sched
 	name := "go"
 	switch f := fn.(type) {
@@ -205,7 +225,7 @@ func (i *interpreter) spawn(fr *frame, pos token.Pos, fn value, args []value) {
 	case *closure:
 		name = f.Fn.String()
 	}
-	g := s.newG(name)
+	g := s.newG(name, harness)
 	s.wg.Add(1)
 	go func() {
 		defer s.wg.Done()
@@ -246,8 +266,8 @@ func (s *scheduler) dispatchExit(g *gstate) {
 		next.status = gRunnable
 		next.ready = nil
 	}
+	s.record("exit", g, next)
 	s.current = next
-	s.schedule = append(s.schedule, next.id)
 	next.wake <- struct{}{}
 }
 
